@@ -127,6 +127,10 @@ def run_case(case):
         ir = family_c()[case[1]]
         w = IR.generic_weights(ir)
         for name, kind in ir.get('patterned', {}).items():
+            if kind == 'diag-one':    # off-diagonal entries are the (non-zero) default: one
+                for idx in itertools.product(*[range(n) for n in IR.weight_shape(ir, name)]):
+                    if len(set(idx)) > 1:
+                        w = IR.set_entry(w, name, idx, Fraction(1))
             if kind == 'block':       # index 0 of every axis is structurally zero
                 for idx in itertools.product(*[range(n) for n in IR.weight_shape(ir, name)]):
                     if 0 in idx:
@@ -206,6 +210,12 @@ def family_c():
                             rules=[('S', T3, sext, (('X', (0, 1)), ('f', (1, 2)))), ('X', ('T', 'T'), (0, 1), (('f', (0, 1)),))]))
             out.append(dict(base, nt={'S': tuple('T' for _ in sext), 'X': ('T', 'T')},
                             rules=[('S', T3, sext, (('X', (1, 0)), ('f', (1, 2)), ('f', (0, 2)))), ('X', ('T', 'T'), (0, 1), (('f', (1, 0)),))]))
+    # (3) a coupling factor stored as its diagonal with default ONE (off-diagonal weight 1), directly and through a nonterminal
+    for dom in (2, 3):
+        base = {'start': 'S', 'nl': {'T': dom}, 'term': {'f': ('T', 'T'), 'g': ('T',)}, 'patterned': {'f': 'diag-one'}}
+        out.append(dict(base, nt={'S': ()}, rules=[('S', ('T', 'T'), (), (('f', (0, 1)), ('g', (1,))))]))
+        out.append(dict(base, nt={'S': ('T',)}, rules=[('S', T3, (0,), (('f', (0, 1)), ('f', (1, 2)), ('g', (2,))))]))
+        out.append(dict(base, nt={'S': (), 'P': ('T', 'T')}, rules=[('S', T3, (), (('P', (0, 1)), ('f', (1, 2)), ('g', (0,)))), ('P', ('T', 'T'), (0, 1), (('f', (0, 1)), ('g', (1,))))]))
     return out
 
 
